@@ -96,43 +96,69 @@ theorem keysOK_of_clean (A : Agg) (he : ∀ p ∈ A.endpoints, cleanMethod p.1.1
 
 /-- Totals are conserved by the whole pipeline for ANY normaliser (no law needed: merging URLs under inferred
     parameters can move traffic between URLs, never between methods or consumers, and never lose it), ANY URLs
-    (refusable ones included) and ANY placement of batch boundaries and restarts.  The only hypothesis is input
-    well-formedness: no method contains `:` (true of every HTTP method token). -/
+    (refusable ones included), ANY placement of batch boundaries and restarts, and ANY pattern of flushes that
+    fail to reach the disk: the in-memory aggregation always accounts for every record, and so does the state
+    file whenever the last non-empty flush succeeded (`freshAfter`).  Hypotheses: input well-formedness (no
+    method contains `:`) and `RestartsFresh` — the process is not killed while records exist only in memory. -/
 theorem restart_conserves_totals {τ : Type} (N : Normaliser τ) (T0 : τ) (segs : List Seg)
-    (hm : MethodsClean (recsOf segs)) :
+    (hm : MethodsClean (recsOf segs)) (hrf : RestartsFresh true segs) :
     Totals (runSegs N T0 (St.init T0) segs).agg (external (recsOf segs)) ∧
-    Totals (restore (runSegs N T0 (St.init T0) segs).file) (external (recsOf segs)) := by
-  have h := runSegs_totals N T0 segs (St.init T0) [] ((external (recsOf segs)).map (·.method))
+    (freshAfter true segs = true →
+      Totals (restore (runSegs N T0 (St.init T0) segs).file) (external (recsOf segs))) := by
+  have h := runSegs_totals N T0 segs (St.init T0) [] true ((external (recsOf segs)).map (·.method))
     (by intro m hmem
         simp only [List.mem_map] at hmem
         obtain ⟨r, hr, rfl⟩ := hmem
         exact hm r hr)
     (methodsIn_empty _) (fun r hr => List.mem_map.mpr ⟨r, hr, rfl⟩)
-    totals_empty nodupKeys_empty (Or.inl rfl)
+    totals_empty nodupKeys_empty (fun _ => Or.inl rfl) hrf
   simpa using h
 
+/-- Which flushes fail to persist does not influence the learnt tree or the in-memory aggregation: a
+    restart-free run ends exactly like the same run with every flush succeeding (the aggregation is adopted in
+    memory BEFORE it is written), ... -/
+theorem dump_failures_do_not_matter {τ : Type} (N : Normaliser τ) (T0 : τ) (segs : List Seg)
+    (hn : noRestart segs = true) :
+    (runSegs N T0 (St.init T0) segs).tree = (runSegs N T0 (St.init T0) (clearFaults segs)).tree ∧
+    (runSegs N T0 (St.init T0) segs).agg = (runSegs N T0 (St.init T0) (clearFaults segs)).agg :=
+  runSegs_clearFaults N T0 segs _ _ hn rfl rfl
+
+/-- ... and the state file is the dump of the in-memory aggregation after every flush that succeeded (until the
+    next failed one): a batch whose dump failed is carried to the next successful write. -/
+theorem file_is_dump_after_successful_flush {τ : Type} (N : Normaliser τ) (T0 : τ) (segs : List Seg)
+    (hn : noRestart segs = true) (hend : freshAfter true segs = true) :
+    (runSegs N T0 (St.init T0) segs).file = persist (runSegs N T0 (St.init T0) segs).agg :=
+  runSegs_noRestart_file N T0 segs (St.init T0) true hn (fun _ => rfl) hend
+
 /-- Batch independence: if the normaliser satisfies the laws (L1 factorisation, L2 learning is insensitive to
-    batch boundaries, L3 no signal ⇒ no change) then two ways of cutting the same stream into batches end with
-    the same tree and the same statistics (as maps).  The laws are the excluded class of the open finding F15c. -/
+    batch boundaries, L3 no signal ⇒ no change) then two ways of cutting the same stream into batches — each
+    batch with its own flush outcome (`true` = the dump fails) — end with the same tree and the same statistics
+    (as maps).  The laws are the excluded class of the open finding F15c. -/
 theorem batch_invariant_partial {τ : Type} (N : Normaliser τ) (T0 : τ) (L : Laws N T0)
-    (bs₁ bs₂ : List (List Rec)) (hsame : bs₁.flatten = bs₂.flatten) :
-    let s₁ := runSegs N T0 (St.init T0) (bs₁.map Seg.batch)
-    let s₂ := runSegs N T0 (St.init T0) (bs₂.map Seg.batch)
+    (fs₁ fs₂ : List (List Rec × Bool)) (hsame : (fs₁.map Prod.fst).flatten = (fs₂.map Prod.fst).flatten) :
+    let s₁ := runSegs N T0 (St.init T0) (fs₁.map segOf)
+    let s₂ := runSegs N T0 (St.init T0) (fs₂.map segOf)
     s₁.tree = s₂.tree ∧ AggEq s₁.agg s₂.agg := by
-  have h₁ := runBatches_inv N T0 L bs₁ [] (T0, {}) (inv_init N T0 L)
-  have h₂ := runBatches_inv N T0 L bs₂ [] (T0, {}) (inv_init N T0 L)
-  have e₁ : ((runSegs N T0 (St.init T0) (bs₁.map Seg.batch)).tree, (runSegs N T0 (St.init T0) (bs₁.map Seg.batch)).agg)
-      = runBatches N (T0, {}) bs₁ := runSegs_batches N T0 bs₁ (St.init T0)
-  have e₂ : ((runSegs N T0 (St.init T0) (bs₂.map Seg.batch)).tree, (runSegs N T0 (St.init T0) (bs₂.map Seg.batch)).agg)
-      = runBatches N (T0, {}) bs₂ := runSegs_batches N T0 bs₂ (St.init T0)
+  have c₁ := dump_failures_do_not_matter N T0 (fs₁.map segOf) (noRestart_segOf fs₁)
+  have c₂ := dump_failures_do_not_matter N T0 (fs₂.map segOf) (noRestart_segOf fs₂)
+  rw [clearFaults_segOf] at c₁ c₂
+  simp only [c₁.1, c₁.2, c₂.1, c₂.2]
+  have h₁ := runBatches_inv N T0 L (fs₁.map Prod.fst) [] (T0, {}) (inv_init N T0 L)
+  have h₂ := runBatches_inv N T0 L (fs₂.map Prod.fst) [] (T0, {}) (inv_init N T0 L)
+  have e₁ : ((runSegs N T0 (St.init T0) ((fs₁.map Prod.fst).map Seg.batch)).tree,
+             (runSegs N T0 (St.init T0) ((fs₁.map Prod.fst).map Seg.batch)).agg)
+      = runBatches N (T0, {}) (fs₁.map Prod.fst) := runSegs_batches N T0 _ (St.init T0)
+  have e₂ : ((runSegs N T0 (St.init T0) ((fs₂.map Prod.fst).map Seg.batch)).tree,
+             (runSegs N T0 (St.init T0) ((fs₂.map Prod.fst).map Seg.batch)).agg)
+      = runBatches N (T0, {}) (fs₂.map Prod.fst) := runSegs_batches N T0 _ (St.init T0)
   simp only [Inv, List.nil_append] at h₁ h₂
   rw [← e₁] at h₁
   rw [← e₂] at h₂
   simp only at h₁ h₂
   refine ⟨?_, ?_⟩
   · rw [h₁.1, h₂.1, hsame]
-  · have ht : (runSegs N T0 (St.init T0) (bs₁.map Seg.batch)).tree
-        = (runSegs N T0 (St.init T0) (bs₂.map Seg.batch)).tree := by rw [h₁.1, h₂.1, hsame]
+  · have ht : (runSegs N T0 (St.init T0) ((fs₁.map Prod.fst).map Seg.batch)).tree
+        = (runSegs N T0 (St.init T0) ((fs₂.map Prod.fst).map Seg.batch)).tree := by rw [h₁.1, h₂.1, hsame]
     refine h₁.2.trans ?_
     rw [ht, hsame]
     exact h₂.2.symm
@@ -154,27 +180,27 @@ theorem attribution_exact {τ : Type} (N : Normaliser τ) (T0 : τ) (L : Laws N 
 /-- THE CONNECTION: the predicate the judge evaluates on the implementation's state files (`Spec.C15.holds`:
     nothing rejected, totals conserved per method and per consumer, `count = Σ status`, interceptor times,
     and equal statistics for all restart-free splittings) is TRUE of the observations of the model, for every
-    lawful normaliser, every stream with well-formed methods, every family of splittings (`fulls`) and every
-    family of runs with restarts (`rests`) of that stream.  So a judge failure on the implementation is a
-    divergence from the proved model, or a failure of the laws (finding F15c). -/
+    lawful normaliser, every stream with well-formed methods, every family `fulls` of splittings — each batch
+    with its own flush outcome, the last non-empty flush succeeding — and every family `rests` of runs with
+    restarts of that stream (restarts only on an up-to-date file, last flush succeeding).  So a judge failure on
+    the implementation is a divergence from the proved model, or a failure of the laws (finding F15c). -/
 theorem judge_holds_on_model {τ : Type} (N : Normaliser τ) (T0 : τ) (L : Laws N T0) (stream : List Rec)
     (hm : MethodsClean stream)
-    (fulls : List (List (List Rec))) (hfull : ∀ bs ∈ fulls, bs.flatten = stream)
+    (fulls : List (List (List Rec × Bool))) (hfull : ∀ fs ∈ fulls, (fs.map Prod.fst).flatten = stream)
+    (hfullFresh : ∀ fs ∈ fulls, freshAfter true (fs.map segOf) = true)
     (rests : List (List Seg)) (hrest : ∀ segs ∈ rests, recsOf segs = stream)
+    (hrestOK : ∀ segs ∈ rests, RestartsFresh true segs ∧ freshAfter true segs = true)
     (thr : Nat) (known : List String) :
     holds { thr := thr, known := known, recs := stream,
-            runs := fulls.map (fun bs => observeRun N T0 true (bs.map Seg.batch))
+            runs := fulls.map (fun fs => observeRun N T0 true (fs.map segOf))
                     ++ rests.map (fun segs => observeRun N T0 false segs) } = true := by
-  have recsOf_batches : ∀ bs : List (List Rec), recsOf (bs.map Seg.batch) = bs.flatten := by
-    intro bs; induction bs with
-    | nil => rfl
-    | cons b rest ih => simp [recsOf, ih]
   -- every single run conserves
-  have hcons : ∀ (full : Bool) (segs : List Seg), recsOf segs = stream →
+  have hcons : ∀ (full : Bool) (segs : List Seg), recsOf segs = stream → RestartsFresh true segs →
+      freshAfter true segs = true →
       ((observeRun N T0 full segs).nondet = false ∧ (observeRun N T0 full segs).fails = 0 ∧
         conserves stream (observeRun N T0 full segs) = true) := by
-    intro full segs hr
-    have ht := (restart_conserves_totals N T0 segs (hr ▸ hm)).2
+    intro full segs hr hrf hfr
+    have ht := (restart_conserves_totals N T0 segs (hr ▸ hm) hrf).2 hfr
     have hagg := (runSegs_aggOk N T0 segs (St.init T0) aggOk_empty (by
       simpa [St.init] using aggOk_restore_persist {} aggOk_empty)).2
     rw [hr] at ht
@@ -183,42 +209,45 @@ theorem judge_holds_on_model {τ : Type} (N : Normaliser τ) (T0 : τ) (L : Laws
   simp only [holds, Bool.and_eq_true, List.all_eq_true, List.mem_append, List.mem_map]
   refine ⟨?_, ?_⟩
   · intro o ho
-    rcases ho with ⟨bs, hbs, rfl⟩ | ⟨segs, hs, rfl⟩
-    · obtain ⟨h1, h2, h3⟩ := hcons true _ ((recsOf_batches bs).trans (hfull bs hbs))
+    rcases ho with ⟨fs, hfs, rfl⟩ | ⟨segs, hs, rfl⟩
+    · obtain ⟨h1, h2, h3⟩ := hcons true _ ((recsOf_segOf fs).trans (hfull fs hfs))
+        (restartsFresh_of_noRestart _ _ (noRestart_segOf fs)) (hfullFresh fs hfs)
       simp [h1, h2, h3]
-    · obtain ⟨h1, h2, h3⟩ := hcons false _ (hrest segs hs)
+    · obtain ⟨h1, h2, h3⟩ := hcons false _ (hrest segs hs) (hrestOK segs hs).1 (hrestOK segs hs).2
       simp [h1, h2, h3]
   · -- batch independence among the restart-free runs
     apply batchInvariant_of_pairwise
     intro a ha b hb
     simp only [List.mem_filter, List.mem_append, List.mem_map] at ha hb
-    have pick : ∀ o : RunObs, ((∃ bs, bs ∈ fulls ∧ observeRun N T0 true (bs.map Seg.batch) = o) ∨
+    have pick : ∀ o : RunObs, ((∃ fs, fs ∈ fulls ∧ observeRun N T0 true (fs.map segOf) = o) ∨
         (∃ segs, segs ∈ rests ∧ observeRun N T0 false segs = o)) → o.full = true →
-        ∃ bs, bs ∈ fulls ∧ observeRun N T0 true (bs.map Seg.batch) = o := by
+        ∃ fs, fs ∈ fulls ∧ observeRun N T0 true (fs.map segOf) = o := by
       intro o h hf
       rcases h with h | ⟨segs, _, rfl⟩
       · exact h
       · simp [observeRun, observe] at hf
-    obtain ⟨bs₁, h₁, rfl⟩ := pick a ha.1 ha.2
-    obtain ⟨bs₂, h₂, rfl⟩ := pick b hb.1 hb.2
-    have hinv := batch_invariant_partial N T0 L bs₁ bs₂ ((hfull _ h₁).trans (hfull _ h₂).symm)
-    have f₁ := runSegs_batches_file N T0 bs₁ (St.init T0) rfl
-    have f₂ := runSegs_batches_file N T0 bs₂ (St.init T0) rfl
-    have n₁ := runSegs_nodup N T0 (bs₁.map Seg.batch) (St.init T0) nodupKeys_empty
-    have n₂ := runSegs_nodup N T0 (bs₂.map Seg.batch) (St.init T0) nodupKeys_empty
+    obtain ⟨fs₁, h₁, rfl⟩ := pick a ha.1 ha.2
+    obtain ⟨fs₂, h₂, rfl⟩ := pick b hb.1 hb.2
+    have hinv := batch_invariant_partial N T0 L fs₁ fs₂ ((hfull _ h₁).trans (hfull _ h₂).symm)
+    have f₁ := file_is_dump_after_successful_flush N T0 _ (noRestart_segOf fs₁) (hfullFresh _ h₁)
+    have f₂ := file_is_dump_after_successful_flush N T0 _ (noRestart_segOf fs₂) (hfullFresh _ h₂)
+    have n₁ := runSegs_nodup N T0 (fs₁.map segOf) (St.init T0) nodupKeys_empty
+    have n₂ := runSegs_nodup N T0 (fs₂.map segOf) (St.init T0) nodupKeys_empty
     have hms : ∀ m ∈ (external stream).map (·.method), cleanMethod m = true := by
       intro m hmem
       simp only [List.mem_map] at hmem
       obtain ⟨r, hr, rfl⟩ := hmem
       exact hm r hr
-    have k₁ := keysOK_of_methodsIn _ _ (runSegs_batches_methodsIn N T0 bs₁ (St.init T0)
-      ((external stream).map (·.method)) (methodsIn_empty _)
-      (fun r hr => List.mem_map.mpr ⟨r, (hfull _ h₁) ▸ hr, rfl⟩)) hms
-    have k₂ := keysOK_of_methodsIn _ _ (runSegs_batches_methodsIn N T0 bs₂ (St.init T0)
-      ((external stream).map (·.method)) (methodsIn_empty _)
-      (fun r hr => List.mem_map.mpr ⟨r, (hfull _ h₂) ▸ hr, rfl⟩)) hms
+    have keys : ∀ fs ∈ fulls, KeysOK (runSegs N T0 (St.init T0) (fs.map segOf)).agg := by
+      intro fs hfs
+      have c := (dump_failures_do_not_matter N T0 (fs.map segOf) (noRestart_segOf fs)).2
+      rw [clearFaults_segOf] at c
+      rw [c]
+      exact keysOK_of_methodsIn _ _ (runSegs_batches_methodsIn N T0 (fs.map Prod.fst) (St.init T0)
+        ((external stream).map (·.method)) (methodsIn_empty _)
+        (fun r hr => List.mem_map.mpr ⟨r, (hfull _ hfs) ▸ hr, rfl⟩)) hms
     simp only [observeRun, f₁, f₂]
-    exact sameStats_of_aggEq _ _ hinv.2 n₁ k₁ n₂ k₂
+    exact sameStats_of_aggEq _ _ hinv.2 n₁ (keys _ h₁) n₂ (keys _ h₂)
 
 /-! ## The laws are needed (open finding F15c) -/
 
@@ -287,6 +316,15 @@ example :
                      observeRun (toyN true) 0 true ([[rec1 "a.com/x"], [rec1 "a.com/y", rec1 "a.com/z"]].map Seg.batch),
                      observeRun (toyN true) 0 false [Seg.batch [rec1 "a.com/x"], Seg.restart,
                                                      Seg.batch [rec1 "a.com/y", rec1 "a.com/z"]]] } = true := by
+  decide
+
+/-- A flush that fails in the middle (`batchNoDump`): its record is carried to the next successful write; the
+    hypotheses of `file_is_dump_after_successful_flush` / `judge_holds_on_model` hold of this run. -/
+example :
+    let segs := [Seg.batchNoDump [rec1 "a.com/x"], Seg.batch [rec1 "a.com/y"]]
+    noRestart segs = true ∧ freshAfter true segs = true ∧
+    (restore (runSegs (toyN true) 0 (St.init 0) segs).file).endpoints.map (fun p => (p.1, p.2.count))
+      = [(("GET", "m"), 2)] := by
   decide
 
 /-- `persist_restore`'s guards hold of a non-trivial aggregation. -/
